@@ -36,7 +36,7 @@ impl<'a> Doc<'a> {
     pub fn new(item: &'a Item, layout: Layout, gaps: Vec<usize>) -> Self {
         let pr = print_program(&item.program);
         let sem = refsem::analyze(&item.program);
-        let r = render(&pr.toks, layout, &gaps, &|g| format!(" doc{}", g));
+        let r = render(&pr.toks, layout, &gaps, &|g| format!(" doc{}$", g));
         Doc { item, pr, sem, r, layout, gaps }
     }
     pub fn text(&self) -> &str {
